@@ -25,6 +25,7 @@ import (
 	"github.com/dappledger/AnnChain/eth/rlp"
 	"github.com/dappledger/AnnChain/gemmill/modules/go-log"
 	gtypes "github.com/dappledger/AnnChain/gemmill/types"
+	"github.com/dappledger/AnnChain/gemmill/verifhook"
 )
 
 var (
@@ -222,6 +223,7 @@ func tryValidate(signer etypes.Signer, tx *appTx) error {
 	_, err := etypes.Sender(signer, tx.tx)
 	if err != nil {
 		atomic.StoreInt32(&tx.status, appTxStatusFailed)
+		verifhook.Gate("evm.tryValidate.failed")
 		tx.err = err
 		return err
 	}
